@@ -67,6 +67,19 @@ def determinism(pids):
     return rc
 
 
+def reach():
+    """Reads the evidence files of the last runs: a fault kind / boundary event that never fired means the
+    workload or the fault mix must change."""
+    rc = 0
+    for f in sorted(glob.glob(os.path.join(ROOT, "evidence", "*.json"))):
+        d = json.load(open(f))
+        zero = d["coverage"].get("expected_fault_kinds_never_fired", [])
+        print(f"{d['property_id']} [{d['tier']}]: {len(d['coverage'].get('fault_kinds_fired', {}))} kinds fired, never fired: {zero or 'none'}")
+        if zero:
+            rc = 1
+    return rc
+
+
 if __name__ == "__main__":
     cmd = sys.argv[1] if len(sys.argv) > 1 else ""
     if cmd == "sensitivity":
@@ -75,5 +88,7 @@ if __name__ == "__main__":
         pids = sys.argv[2:] or [json.loads(l)["id"] for l in open(os.path.join(ROOT, "properties.jsonl"))
                                 if os.path.exists(os.path.join(ROOT, "dst", "props", json.loads(l)["id"].lower() + ".py"))]
         sys.exit(determinism(pids))
-    print(__doc__ or "usage: selftest sensitivity|determinism")
+    if cmd == "reach":
+        sys.exit(reach())
+    print(__doc__ or "usage: selftest sensitivity|determinism|reach")
     sys.exit(2)
